@@ -26,6 +26,9 @@ class Potentials(Monitor):
         self.ewald_every = ewald_every
         self.calls = 0
         self.coulomb_calls = 0
+        self.busy = False
+        self.copies = {}
+        self.copy_calls = {}
         self.force_budgets = force_budgets and "C02" in props
         self.worst = {}
         if self.force_budgets:
@@ -94,11 +97,54 @@ class Potentials(Monitor):
                     detail["tiny_budget"] = self._tiny_budget(potential, args, kwargs)
                 ctx.violation(prop, name + "_raised", detail)
             return
+        if self.busy:
+            return
         self.calls += 1
         if name == "displacement" and "C02" in self.props:
             self._check_displacement(potential, names, args, kwargs, result)
+            self._check_copies("C02", potential, names, name, args, kwargs, result)
         elif name == "derivative" and "C03" in self.props:
             self._check_derivative(potential, names, args, kwargs, result)
+            self._check_copies("C03", potential, names, name, args, kwargs, result)
+
+    def _check_copies(self, prop, potential, names, name, args, kwargs, result):
+        """What a dump / resume and the creation of further event handlers do to a potential: the deep copy and the
+        dill round trip of the very object answer the same call with the same value (1 call in 25 per object)."""
+        if "CellBoundingPotential" in names:
+            return      # answers from the state its last call left behind; covered by C19 as part of the whole run
+        key = id(potential)
+        count = self.copy_calls.get(key, 0)
+        self.copy_calls[key] = count + 1
+        if count % 25:
+            return
+        import copy
+        import dill
+        if key not in self.copies:
+            try:
+                self.copies[key] = (potential, {"deep_copy": copy.deepcopy(potential),
+                                                "dill_round_trip": dill.loads(dill.dumps(potential))})
+            except Exception as error:
+                self.copies[key] = (potential, {})
+                self.ctx.probes["potential_copy_failed_" + type(error).__name__] += 1
+        self.busy = True
+        try:
+            for variant, clone in self.copies[key][1].items():
+                try:
+                    again = getattr(clone, name)(*copy.deepcopy(args), **copy.deepcopy(kwargs))
+                except Exception as error:
+                    self.ctx.violation(prop, name + "_raised_on_a_copy_of_the_potential",
+                                       {"potential": potential.__class__.__name__, "copy": variant,
+                                        "error": repr(error)[:300], "args": repr(args)[:600]})
+                same = (again == result) or (isinstance(again, float) and isinstance(result, float) and (
+                    (math.isnan(again) and math.isnan(result)) or abs(again - result) <= 1e-12 * abs(result)))
+                if not same:
+                    self.ctx.violation(prop, name + "_of_a_copy_of_the_potential_differs",
+                                       {"potential": potential.__class__.__name__, "copy": variant,
+                                        "original": result, "copy_returns": again, "args": repr(args)[:600],
+                                        "kwargs": repr(kwargs)[:200]})
+                self.ctx.probes["potential_copies_compared_" + variant] += 1
+        finally:
+            self.busy = False
 
     # -- C02 ------------------------------------------------------------------------------------------------------------
     def _check_displacement(self, potential, names, args, kwargs, result):
